@@ -187,6 +187,16 @@ func ruleF8c(c *Ctx) {
 				}
 			}
 		}
+		// the same set kept as a read-only map[string]bool
+		if len(got) == 0 {
+			for _, kv := range readOnlyStringTable(c, p, fd) {
+				if id, ok := kv.Value.(*ast.Ident); ok && id.Name == "true" {
+					if s, ok := constStr(info, kv.Key); ok {
+						got[s] = true
+					}
+				}
+			}
+		}
 		want := []string{"ADC", "ADD", "AND", "CMP", "OR", "SBB", "SUB", "XOR"}
 		var gl []string
 		for k := range got {
@@ -335,8 +345,17 @@ func ruleF8c(c *Ctx) {
 					}
 				}
 			}
+			// x, ok := helper(a, b): both names are computed from the call
+			if as, ok := n.(*ast.AssignStmt); ok && as.Tok == token.DEFINE && len(as.Rhs) == 1 && len(as.Lhs) > 1 {
+				for _, l := range as.Lhs {
+					if id, ok := l.(*ast.Ident); ok && info.Defs[id] != nil {
+						defs[info.Defs[id]] = as.Rhs[0]
+					}
+				}
+			}
 			return true
 		})
+		calleeDepth := 0
 		var tagsOf func(e ast.Expr, seen map[types.Object]bool, out map[string]bool)
 		tagsOf = func(e ast.Expr, seen map[types.Object]bool, out map[string]bool) {
 			ast.Inspect(e, func(n ast.Node) bool {
@@ -361,6 +380,17 @@ func ruleF8c(c *Ctx) {
 							tagsOf(d, seen, out)
 						}
 					}
+				case *ast.CallExpr:
+					// a helper of this package: what its body is computed from
+					if fn, ok := calleeOf(info, x).(*types.Func); ok && fn.Pkg() != nil && fn.Pkg().Path() == modPath+"/pkg/asmdb" && calleeDepth < 3 {
+						if hp := c.L.Pkg("pkg/asmdb"); hp != nil {
+							if hd := funcDeclOf(hp, fn); hd != nil && hd.Body != nil && hd != fd && hd.Recv == nil {
+								calleeDepth++
+								tagsOf(&ast.FuncLit{Type: hd.Type, Body: hd.Body}, seen, out)
+								calleeDepth--
+							}
+						}
+					}
 				}
 				return true
 			})
@@ -373,6 +403,32 @@ func ruleF8c(c *Ctx) {
 		var collect func(list []ast.Stmt, outer map[string]bool)
 		collect = func(list []ast.Stmt, outer map[string]bool) {
 			for _, st := range list {
+				// a tagless switch whose clauses return is a test on all of its case conditions
+				if sw, ok := st.(*ast.SwitchStmt); ok && sw.Tag == nil {
+					tags := map[string]bool{}
+					for k := range outer {
+						tags[k] = true
+					}
+					returns := false
+					for _, cl := range sw.Body.List {
+						cc, ok := cl.(*ast.CaseClause)
+						if !ok {
+							continue
+						}
+						for _, e := range cc.List {
+							tagsOf(e, map[types.Object]bool{}, tags)
+						}
+						for _, bs := range cc.Body {
+							if _, ok := bs.(*ast.ReturnStmt); ok {
+								returns = true
+							}
+						}
+					}
+					if returns {
+						ifs = append(ifs, critIf{sw.Pos(), tags})
+					}
+					continue
+				}
 				is, ok := st.(*ast.IfStmt)
 				if !ok {
 					continue
@@ -449,6 +505,52 @@ func ruleF8c(c *Ctx) {
 			return got
 		}
 		nd := 0
+		// `P && !Q` (only the candidate P belongs to has the property) must return whether that candidate is a
+		onlyOne := func(cond ast.Expr, body []ast.Stmt, pos token.Pos) {
+			be, ok := ast.Unparen(cond).(*ast.BinaryExpr)
+			if !ok || be.Op != token.LAND || len(body) != 1 {
+				return
+			}
+			ret, ok := body[0].(*ast.ReturnStmt)
+			if !ok || len(ret.Results) != 1 {
+				return
+			}
+			lit, ok := ast.Unparen(ret.Results[0]).(*ast.Ident)
+			if !ok || (lit.Name != "true" && lit.Name != "false") {
+				return
+			}
+			var pos1, neg1 *ast.Ident
+			for _, e := range []ast.Expr{be.X, be.Y} {
+				switch y := ast.Unparen(e).(type) {
+				case *ast.Ident:
+					pos1 = y
+				case *ast.UnaryExpr:
+					if id, ok := ast.Unparen(y.X).(*ast.Ident); ok && y.Op == token.NOT {
+						neg1 = id
+					}
+				}
+			}
+			if pos1 == nil || neg1 == nil || !isBoolType(info.TypeOf(pos1)) {
+				return
+			}
+			sp, sn := side(pos1), side(neg1)
+			if sp == nil || sn == nil || sp == sn {
+				return
+			}
+			nd++
+			c.check((lit.Name == "true") == (sp == aObj), "F8c", fmt.Sprintf("%s|preference direction#%d", fn, nd), c.L.Pos(pos), fmt.Sprintf("when only %s holds (not %s) the comparator must return %v; it returns %s", pos1.Name, neg1.Name, sp == aObj, lit.Name))
+		}
+		ast.Inspect(fd.Body, func(n ast.Node) bool {
+			switch x := n.(type) {
+			case *ast.IfStmt:
+				onlyOne(x.Cond, x.Body.List, x.Pos())
+			case *ast.CaseClause:
+				for _, e := range x.List {
+					onlyOne(e, x.Body, x.Pos())
+				}
+			}
+			return true
+		})
 		ast.Inspect(fd.Body, func(n ast.Node) bool {
 			is, ok := n.(*ast.IfStmt)
 			if !ok || len(is.Body.List) != 1 {
@@ -521,15 +623,18 @@ func ruleF8c(c *Ctx) {
 		c.anchorMissing("F8c", "asmdb.FindEncoding")
 	} else {
 		mins, others := 0, 0
-		callsIn(f, func(ci ssa.CallInstruction) {
-			n := calleeName(ci.Common())
-			if strings.Contains(n, "samber/lo.MinBy") {
-				mins++
-			}
-			if strings.Contains(n, "samber/lo.MaxBy") || strings.Contains(n, "samber/lo.First") || strings.Contains(n, "samber/lo.Last") {
-				others++
-			}
-		})
+		// FindEncoding together with the helpers of its package it calls (selection may be a phase of its own)
+		for _, g := range unitOf(f, 2) {
+			callsIn(g, func(ci ssa.CallInstruction) {
+				n := calleeName(ci.Common())
+				if strings.Contains(n, "samber/lo.MinBy") {
+					mins++
+				}
+				if strings.Contains(n, "samber/lo.MaxBy") || strings.Contains(n, "samber/lo.First") || strings.Contains(n, "samber/lo.Last") {
+					others++
+				}
+			})
+		}
 		c.check(mins >= 1 && others == 0, "F8c", "FindEncoding|takes the minimum", c.L.Pos(f.Pos()), fmt.Sprintf("the best candidate is lo.MinBy under the comparator (found MinBy x%d, other selectors x%d)", mins, others))
 	}
 	c.floor("F8c", 16)
